@@ -66,6 +66,8 @@ type dtRow struct {
 	refInt  func(a dtAtoms) int64
 	// expression rows: compare a boolean expression found by exprOf (no path condition)
 	exprOf func(info *types.Info, fn *an.Func) ast.Expr
+	// occ: number atoms by source occurrence (needed when the same text is evaluated at several program points)
+	occ bool
 }
 
 func runTPCDecision(c *core.Ctx) {
@@ -143,10 +145,12 @@ func runTPCDecision(c *core.Ctx) {
 	rows := []dtRow{
 		// ---------------- acceptor
 		{fn: "receiveInternal", key: "reject-stale", why: "a request for a version this replica has already decided (arg.Version <= version) is rejected with the current value, so the sender learns it; anything newer is processed",
-			find: func(info *types.Info, n ast.Node) bool { return replyAssign(info, n, "makeReject") && func() bool {
-				call, _ := isCallTo(info, an.Unparen(n.(*ast.AssignStmt).Rhs[0]), "makeReject")
-				return call != nil && len(call.Args) == 1 && isBoolConst(info, call.Args[0], true)
-			}() },
+			find: func(info *types.Info, n ast.Node) bool {
+				return replyAssign(info, n, "makeReject") && func() bool {
+					call, _ := isCallTo(info, an.Unparen(n.(*ast.AssignStmt).Rhs[0]), "makeReject")
+					return call != nil && len(call.Args) == 1 && isBoolConst(info, call.Args[0], true)
+				}()
+			},
 			ints: accInts, ref: func(a dtAtoms) bool {
 				return a.I("arg.RequestType") != a.K("GetState") && a.I("arg.Version") <= a.I("$.version")
 			}},
@@ -198,7 +202,9 @@ func runTPCDecision(c *core.Ctx) {
 				return ok && len(call.Args) == 1 && constArg(info, call.Args[0], "initial")
 			},
 			ints: map[string]string{"$.twoPCState": "TwoPCState", "$.acceptedPreCommit.Version": "", "version": ""},
-			ref:  func(a dtAtoms) bool { return a.I("$.twoPCState") == a.K("acceptedPreCommit") && a.I("$.acceptedPreCommit.Version") <= a.I("version") }},
+			ref: func(a dtAtoms) bool {
+				return a.I("$.twoPCState") == a.K("acceptedPreCommit") && a.I("$.acceptedPreCommit.Version") <= a.I("version")
+			}},
 		{fn: "acceptNewValue", key: "poisons-section-in-flight", why: "a section that is in progress when another proposer's value is adopted has read stale state and must fail",
 			find: storeConst(csF, "acceptedNewValueInCriticalSection"), ints: csOnly,
 			ref: func(a dtAtoms) bool { return a.I("$.criticalSectionState") != a.K("notInCriticalSection") }},
@@ -220,7 +226,9 @@ func runTPCDecision(c *core.Ctx) {
 			}, ints: csOnly, ref: permFailed},
 		{fn: "ReadValue", key: "enters-section", why: "the first access opens the section",
 			find: storeConst(csF, "inUninterruptedCriticalSection"), ints: csOnly,
-			ref: func(a dtAtoms) bool { return !permFailed(a) && a.I("$.criticalSectionState") == a.K("notInCriticalSection") }},
+			ref: func(a dtAtoms) bool {
+				return !permFailed(a) && a.I("$.criticalSectionState") == a.K("notInCriticalSection")
+			}},
 		{fn: "WriteValue", key: "aborts-doomed-section", why: "a doomed section must not write",
 			find: func(info *types.Info, n ast.Node) bool {
 				r, ok := n.(*ast.ReturnStmt)
@@ -231,7 +239,9 @@ func runTPCDecision(c *core.Ctx) {
 			ref: func(a dtAtoms) bool { return !permFailed(a) }},
 		{fn: "WriteValue", key: "enters-section", why: "the first access opens the section",
 			find: storeConst(csF, "inUninterruptedCriticalSection"), ints: csOnly,
-			ref: func(a dtAtoms) bool { return !permFailed(a) && a.I("$.criticalSectionState") == a.K("notInCriticalSection") }},
+			ref: func(a dtAtoms) bool {
+				return !permFailed(a) && a.I("$.criticalSectionState") == a.K("notInCriticalSection")
+			}},
 		// ---------------- quorum arithmetic
 		{fn: "broadcast", key: "quorum-size", why: "with the proposer itself, `required` further acknowledgements make a strict majority of the replicas+1 group: ceil(N/2)",
 			find: func(info *types.Info, n ast.Node) bool {
@@ -268,7 +278,9 @@ func runTPCDecision(c *core.Ctx) {
 				return false
 			},
 			ints: map[string]string{"required": "", "remaining": ""}, bools: []string{"response"},
-			ref: func(a dtAtoms) bool { return a.I("required") > 0 && a.I("remaining") >= a.I("required") && a.B("response") }},
+			ref: func(a dtAtoms) bool {
+				return a.I("required") > 0 && a.I("remaining") >= a.I("required") && a.B("response")
+			}},
 		{fn: "broadcast", key: "success-iff-quorum", why: "the broadcast succeeded iff no further acknowledgement is required",
 			exprOf: func(info *types.Info, fn *an.Func) ast.Expr {
 				var out ast.Expr
@@ -372,7 +384,9 @@ func runTPCDecision(c *core.Ctx) {
 				o := selectedOrIdentObj(info, ss.Value)
 				return ok && o != nil && o.Name() == "ErrCriticalSectionAborted"
 			}, ints: map[string]string{"$.version": "", "initialVersion": "", "$.twoPCState": "TwoPCState"},
-			ref: func(a dtAtoms) bool { return a.I("$.version") != a.I("initialVersion") || a.I("$.twoPCState") == a.K("acceptedPreCommit") }},
+			ref: func(a dtAtoms) bool {
+				return a.I("$.version") != a.I("initialVersion") || a.I("$.twoPCState") == a.K("acceptedPreCommit")
+			}},
 	)
 	// outgoing requests carry version+1
 	for _, mk := range []string{"makeCommit", "makeAbort", "makePreCommit"} {
@@ -389,13 +403,26 @@ func runTPCDecision(c *core.Ctx) {
 			ints:    map[string]string{"$.version": ""}, refInt: func(a dtAtoms) int64 { return a.I("$.version") + 1 }})
 	}
 
+	runDecisionRows(c, e, an.PkgResources, "TwoPCArchetypeResource", rows)
+}
+
+// runDecisionRows evaluates decision-table rows against functions of package pkgPath; row.fn is "method" (of defaultType),
+// "Type.method", or ".func" for a package-level function.
+func runDecisionRows(c *core.Ctx, e *Env, pkgPath, defaultType string, rows []dtRow) {
+	pk := c.Prog.Pkg(pkgPath)
+	if pk == nil {
+		c.Lost(pkgPath, "package not loaded")
+		return
+	}
 	for _, row := range rows {
 		key := row.fn + ":" + row.key
 		var fn *an.Func
-		if i := indexByte(row.fn, '.'); i >= 0 {
-			fn = mustMethod(c, e, an.PkgResources, row.fn[:i], row.fn[i+1:])
+		if i := indexByte(row.fn, '.'); i == 0 {
+			fn = mustFunc(c, e, pkgPath, row.fn[1:])
+		} else if i > 0 {
+			fn = mustMethod(c, e, pkgPath, row.fn[:i], row.fn[i+1:])
 		} else {
-			fn = mustMethod(c, e, an.PkgResources, "TwoPCArchetypeResource", row.fn)
+			fn = mustMethod(c, e, pkgPath, defaultType, row.fn)
 		}
 		if fn == nil {
 			continue
@@ -407,6 +434,7 @@ func runTPCDecision(c *core.Ctx) {
 		}
 		fr := &dtFrame{info: info, subst: map[types.Object]dtBound{}, recv: recv}
 		ev := newDtEval(e)
+		ev.occ = row.occ
 		// declare the reference's atoms
 		for name, tn := range row.ints {
 			var ty types.Type = types.Typ[types.Int]
@@ -532,6 +560,18 @@ func runTPCDecision(c *core.Ctx) {
 			}
 			for _, ef := range effs {
 				for _, pth := range ef.paths {
+					if env == nil {
+						// collection: visit every guard (evalGuards stops at the first one that fails)
+						for _, gd := range pth {
+							if gd.tag != nil {
+								_, _ = ev.evalInt(gd.tag, fr, nil)
+								_, _ = ev.evalInt(gd.cond, fr, nil)
+							} else {
+								_, _ = ev.evalBool(gd.cond, fr, nil)
+							}
+						}
+						continue
+					}
 					if _, err := ev.evalGuards(pth, fr, env); err != nil && env != nil {
 						evalErr = err
 					}
